@@ -89,6 +89,10 @@ func VerifyEventSignatures(ctx context.Context, e PDU, verifier JSONVerifier, us
 			if err != nil {
 				return err
 			}
+			// the mapping must vouch for the room key that sent (and self-signs) this event
+			if mapping.UserRoomKey != e.SenderID() {
+				return fmt.Errorf("mxid_mapping is for user_room_key %q, the event was sent by %q", mapping.UserRoomKey, e.SenderID())
+			}
 			err = validateMXIDMappingSignatures(ctx, e, *mapping, verifier, verImpl)
 			if err != nil {
 				return err
@@ -173,25 +177,26 @@ func getMXIDMapping(e PDU) (*MXIDMapping, error) {
 	return content.MXIDMapping, nil
 }
 
-// validateMXIDMappingSignatures validates that the MXIDMapping is correctly signed
+// validateMXIDMappingSignatures validates that the MXIDMapping is correctly signed: the homeserver
+// of the user it names must have signed it. The signatures of other servers neither help nor harm.
 func validateMXIDMappingSignatures(ctx context.Context, e PDU, mapping MXIDMapping, verifier JSONVerifier, verImpl IRoomVersion) error {
+	userID, err := spec.NewUserID(mapping.UserID, true)
+	if err != nil {
+		return fmt.Errorf("failed to verify MXIDMapping: invalid user_id: %w", err)
+	}
+
 	mappingBytes, err := json.Marshal(mapping)
 	if err != nil {
 		return err
 	}
 
-	var toVerify []VerifyJSONRequest
-	for s := range mapping.Signatures {
-		v := VerifyJSONRequest{
-			Message:              mappingBytes,
-			AtTS:                 e.OriginServerTS(),
-			ServerName:           s,
-			ValidityCheckingFunc: verImpl.SignatureValidityCheck,
-		}
-		toVerify = append(toVerify, v)
-	}
-
-	// check that the mapping is correctly signed by the server
+	// check that the mapping is correctly signed by the server of the user
+	toVerify := []VerifyJSONRequest{{
+		Message:              mappingBytes,
+		AtTS:                 e.OriginServerTS(),
+		ServerName:           userID.Domain(),
+		ValidityCheckingFunc: verImpl.SignatureValidityCheck,
+	}}
 	results, err := verifier.VerifyJSONs(ctx, toVerify)
 	if err != nil {
 		return fmt.Errorf("failed to verify MXIDMapping: %w", err)
